@@ -1,12 +1,14 @@
 /-
 Driver glue for M-Repr: S-expression ⇄ `Repr.Op` / results.  Not part of the proved core.
 Values never cross the protocol (the driver instantiates `V := Unit`): per line the driver
-answers the results of the operations (for requests: how many factory invocations they caused)
-and the cached keys of every object.
+answers the results of the operations (for requests: how many factory invocations they caused),
+the cached keys of every object, and whether the state is inside the structural domain `Dom` of the
+theorems (`domCheck`).
 -/
 import DefconModel.Util.SExp
 import DefconModel.Repr
 import DefconModel.Gen.ReprTables
+import DefconModel.Lemmas.ReprDom
 
 namespace DefconModel
 namespace Repr
@@ -84,13 +86,13 @@ def driverStep (w : World Unit) (line : SExp) : World Unit × SExp :=
       let r := ops.foldl (fun (acc : World Unit × List SExp) op =>
         let s := step unitParams Gen.ReprTables.tables acc.1 op
         (s.1, acc.2 ++ [encRes s.2])) (w, [])
-      (r.1, .list [.list r.2, encDigest r.1])
+      (r.1, .list [.list r.2, encDigest r.1, ofBool (domCheck r.1)])
   | _ =>
     match parseOp line with
     | none => (w, .atom "bad-op")
     | some op =>
       let s := step unitParams Gen.ReprTables.tables w op
-      (s.1, .list [.list [encRes s.2], encDigest s.1])
+      (s.1, .list [.list [encRes s.2], encDigest s.1, ofBool (domCheck s.1)])
 
 end Repr
 end DefconModel
